@@ -109,6 +109,9 @@ def check(sp, info, shard):
     res = S.run_spec(sp)
     if res['failed_at'] is not None:
         return Outcome('build-raised', [], False, digest=res['status'][-1][:50])
+    if any(res['status'][i] == 'ok' for i in info.get('refused_ops', ())):
+        # the assignment meant to be refused was accepted (an attribute that takes anything): outside this alphabet
+        return Outcome('refused-reassign-accepted', [], False, digest='accepted')
     if res['write'] != 'ok':
         data, sp2 = repaired_rewrite(sp, info, shard)
         if data is None:
